@@ -941,6 +941,12 @@ def _c05_predicates(rep, t, x, case, tag):
     if "stochastic" not in str(res["target_type"]):
         rep.violation("target_type", "optimize_result.py", f"target_type={res['target_type']} for a stochastic target; {tag}", case)
     nfs = int(fin["nfs"])
+    # what the USER configured decides (an explicit noise_final_samples - 0 included - must not be replaced by the default): the number of final
+    # samples the run worked with is the configured one, capped by the remaining budget
+    u_nfs = sp.get("options", {}).get("noise_final_samples")
+    if u_nfs is not None and nfs > max(0, int(u_nfs)):
+        rep.violation("final_samples_as_configured", "bads.py:final re-sampling", f"the run re-samples the returned point {nfs} times but the user set noise_final_samples={u_nfs}; {tag}", case)
+        return
     tail = x["final"]["_tail"] if x["final"] else []
     xres = res["x"] if isinstance(res["x"], list) else [res["x"]]
     body = calls[: len(calls) - len(tail)]
